@@ -2,5 +2,9 @@ package main
 
 import "verifgo/facts"
 
-// C10: the substring → message table of channel.sshMessageHandler.
-func init() { extraGenerators["SshErrors.lean"] = facts.GenSshErrors }
+// C10: the substring → message table of channel.sshMessageHandler, and the custom login pattern
+// sets the harness hands to the driver (as Lean regex terms).
+func init() {
+	extraGenerators["SshErrors.lean"] = facts.GenSshErrors
+	extraGenerators["AuthPool.lean"] = facts.GenAuthPool
+}
